@@ -143,6 +143,7 @@ def run_cases(sc, wire, cases, name='b', runtime=True, check=False, show=False, 
     for i in sorted(badidx):
         o = allobs[i]
         out.bad.append({'case': b.cases[o['ci'] - 1].case, 'kind': 'tool:' + o['cmd'], 'detail': o})
+    out.work = {obs[d]['key']: (obs[d]['work_acyclic'], obs[d]['work_solve']) for d in dirs if obs[d].get('work_acyclic', -1) >= 0}
     out.accepted = sum(1 for d in dirs if obs[d]['wrote'])
     out.rejected = sum(1 for d in dirs if obs[d]['failed'])
     for d in dirs[:2]:
